@@ -439,6 +439,79 @@ func TestC20(t *testing.T) {
 			}
 			stats.Class("dispatched-messages")
 			stats.Nontriv(id+sid, map[string]any{"id": id, "subscription": sid, "invoke_body": truncate(body, 200)})
+			// ---- several messages of one dispatch cycle: every listener receives the message of ITS promise, then the
+			// notification of ITS promise with its value (what is in flight together must not be mixed up) ----
+			type burstMsg struct {
+				id, lid     string
+				data, vdata []byte
+				l           *listener
+			}
+			var bs []*burstMsg
+			for i, k := 0, rapid.IntRange(2, 6).Draw(rt, "burst"); i < k; i++ {
+				b := &burstMsg{id: mk(genId(rt, "bid")) + fmt.Sprint(i), lid: fmt.Sprintf("w%d-%d", n, i), data: genBytes(rt, "bdata"), vdata: genBytes(rt, "bvdata")}
+				b.l = listen(srv.Poll, "g", b.lid)
+				defer b.l.close()
+				bs = append(bs, b)
+			}
+			bctx, bcancel := context.WithTimeout(context.Background(), 20*time.Second)
+			defer bcancel()
+			each := func(f func(b *burstMsg) error) {
+				var wg sync.WaitGroup
+				errs := make([]error, len(bs))
+				for i := range bs {
+					wg.Add(1)
+					go func(i int) { defer wg.Done(); errs[i] = f(bs[i]) }(i)
+				}
+				wg.Wait()
+				for i, err := range errs {
+					if err != nil {
+						fail("burst: request for promise %q: %v", bs[i].id, err)
+					}
+				}
+			}
+			each(func(b *burstMsg) error {
+				_, err := g.Promises.CreatePromise(bctx, &pb.CreatePromiseRequest{Id: b.id, Param: &pb.Value{Data: b.data}, Timeout: time.Now().UnixMilli() + 3600_000, Tags: map[string]string{"resonate:invoke": "poll://g/" + b.lid}})
+				return err
+			})
+			for _, b := range bs {
+				mb, ok := b.l.wait(func(x string) bool { return strings.Contains(x, `"invoke"`) }, 6*time.Second)
+				if !ok {
+					fail("burst: no invoke message arrived at listener %s for promise %q within 6s", b.lid, b.id)
+				}
+				var m struct {
+					Task struct {
+						Id string `json:"id"`
+					} `json:"task"`
+					Href map[string]string `json:"href"`
+				}
+				if err := json.Unmarshal([]byte(mb), &m); err != nil || m.Task.Id != "__invoke:"+b.id || !strings.Contains(m.Href["claim"], url.PathEscape("__invoke:"+b.id)) && !strings.Contains(m.Href["claim"], "__invoke:"+b.id) {
+					fail("burst of %d invocations dispatched together: listener %s of promise %q received %s (%v): the message must name the task __invoke:<that id> and its links", len(bs), b.lid, b.id, truncate(mb, 400), err)
+				}
+			}
+			each(func(b *burstMsg) error {
+				res := srv.PostJSON("/subscriptions", map[string]any{"Id": "s" + b.lid, "promiseId": b.id, "timeout": time.Now().UnixMilli() + 3600_000, "recv": map[string]any{"type": "poll", "data": map[string]any{"group": "g", "id": b.lid}}}, nil)
+				if res.Code != 201 {
+					return fmt.Errorf("subscription answered %d %s", res.Code, truncate(string(res.Body), 200))
+				}
+				return nil
+			})
+			each(func(b *burstMsg) error {
+				_, err := g.Promises.ResolvePromise(bctx, &pb.ResolvePromiseRequest{Id: b.id, Value: &pb.Value{Data: b.vdata, Headers: map[string]string{"h": b.lid}}})
+				return err
+			})
+			for _, b := range bs {
+				nb, ok := b.l.wait(func(x string) bool { return strings.Contains(x, `"notify"`) }, 6*time.Second)
+				if !ok {
+					fail("burst: no notification arrived at listener %s for promise %q within 6s", b.lid, b.id)
+				}
+				var nm struct {
+					Promise wire `json:"promise"`
+				}
+				if err := json.Unmarshal([]byte(nb), &nm); err != nil || nm.Promise.Id != b.id || string(nm.Promise.Value.Data) != string(b.vdata) || string(nm.Promise.Param.Data) != string(b.data) || nm.Promise.Value.Headers["h"] != b.lid {
+					fail("burst of %d notifications dispatched together: listener %s of promise %q (value %q) received %s (%v)", len(bs), b.lid, b.id, b.vdata, truncate(nb, 400), err)
+				}
+			}
+			stats.Class("dispatched-bursts")
 		default: // ---- D: schedules ----
 			sid := mk(genId(rt, "sid"))
 			viaGrpc := rapid.Bool().Draw(rt, "viaGrpc")
